@@ -36,6 +36,7 @@ type Scenario struct {
 	ShutdownPhase                           bool  `json:"shutdown_phase,omitempty"`
 	NoTailRestart                           bool  `json:"no_tail_restart,omitempty"`
 	Quiet                                   bool  `json:"quiet,omitempty"` // fault-free run (C13 second half)
+	Script                                  string `json:"script,omitempty"` // programmatic nemesis (see scripts.go) run instead of Steps
 }
 
 func pick[T any](r *rand.Rand, xs ...T) T { return xs[r.Intn(len(xs))] }
@@ -176,6 +177,8 @@ func Generate(family string, seed int64, idx int) Scenario {
 			end = t + 2*sc.P.HeartbeatMs
 		}
 		sc.Steps, sc.EndMs = steps, end+4*sc.P.HeartbeatMs
+	case "fig8x":
+		genFig8x(r, &sc)
 	case "lease":
 		genLease(r, &sc)
 	case "quiet":
@@ -597,4 +600,31 @@ func genLagging(r *rand.Rand, sc *Scenario) {
 	}
 	sortSteps(sc.Steps)
 	sc.EndMs = t + 2*p.HeartbeatMs
+}
+
+// genFig8x (C03, C02, C05): the paper's Figure 8, driven by a script that
+// reacts to who is leader (scripts.go): an old-term entry reaches a majority
+// under a later leader whose own-term no-op cannot be stored by the followers;
+// then a server with a shorter log but a higher last term is elected.
+func genFig8x(r *rand.Rand, sc *Scenario) {
+	p := &sc.P
+	p.Voters, p.NonVoters, p.Spares = 5, 0, 0
+	p.PreVoteOff = make([]bool, 5)
+	if r.Intn(2) == 0 {
+		for i := range p.PreVoteOff {
+			p.PreVoteOff[i] = true
+		}
+	}
+	p.MaxAppend = 1
+	p.Trailing = 10240
+	p.SnapThreshold = 8192
+	p.RestoreCommitted = false
+	p.LogCache = 0
+	p.Flavor = Flavor{}
+	p.ShutdownOnRemove = false
+	p.ApplyDelayMs, p.PersistDelayMs, p.RestoreDelayMs = 0, 0, 0
+	p.Pipeline = r.Intn(2) == 0
+	sc.Clients = 0
+	sc.Script = "fig8x"
+	sc.EndMs = 0
 }
